@@ -82,7 +82,7 @@ impl PropCheck for C14 {
 }
 
 /// Source-level conditions of the listed findings C14-F2 / C14-F3 (narrow, syntactic).
-/// F3: a text `{`, one or more comments, then text starting with `{` (comments are not printed, so the braces join).
+/// F3: two sibling text nodes separated only by comments (comments are not printed, so they are read back as one text).
 /// F2: a binding that consists of one string literal only (printed as static text, pinned by the test lit_str).
 pub fn file_tag(src0: &str) -> Option<String> {
     // entity spellings of `{` count as `{` (same length is not needed: only patterns are searched)
@@ -91,8 +91,10 @@ pub fn file_tag(src0: &str) -> Option<String> {
     let b = src.as_bytes();
     let mut i = 0;
     while i < b.len() {
-        if b[i] == b'{' && src[i + 1..].starts_with("<!--") {
-            let mut j = i + 1;
+        if src[i..].starts_with("<!--") {
+            // text directly before the (run of) comment(s) and directly after it
+            let before_is_text = i > 0 && b[i - 1] != b'>';
+            let mut j = i;
             let mut comments = 0;
             while src[j..].starts_with("<!--") {
                 match src[j + 4..].find("-->") {
@@ -103,8 +105,13 @@ pub fn file_tag(src0: &str) -> Option<String> {
                     None => break,
                 }
             }
-            if comments > 0 && src[j..].starts_with('{') {
-                return Some("brace-text-comment-binding".to_string());
+            let after_is_text = j < b.len() && b[j] != b'<';
+            if comments > 0 && before_is_text && after_is_text {
+                return Some("text-comment-text-printed-adjacent".to_string());
+            }
+            if comments > 0 {
+                i = j;
+                continue;
             }
         }
         if src[i..].starts_with("{{") {
